@@ -17,7 +17,9 @@ bool grb_variant_0(void *, size_t); bool grb_variant_1(void *, size_t); bool grb
 bool grb_variant_4(void *, size_t); bool grb_variant_5(void *, size_t); bool grb_variant_6(void *, size_t); bool grb_variant_7(void *, size_t);
 bool _crypt_get_random_bytes(void *buf, size_t n) {
   static bool (*const v[8])(void *, size_t) = {grb_variant_0, grb_variant_1, grb_variant_2, grb_variant_3, grb_variant_4, grb_variant_5, grb_variant_6, grb_variant_7};
-  return v[g_rngdev.variant & 7](buf, n);
+  bool ok = v[g_rngdev.variant & 7](buf, n);
+  g_rngdev.grb_calls[cur_task()]++; if (ok) g_rngdev.grb_ok[cur_task()]++;
+  return ok;
 }
 }
 
@@ -45,12 +47,20 @@ static long serve(const char *src, void *buf, size_t n, bool all_or_nothing) {
   std::string o = next_outcome(src);
   g_rngdev.calls[src]++;
   MemLayer::get().stats[std::string("src_") + src]++;
+  if (all_or_nothing && n > 256) {   // getentropy(3): requests of more than 256 bytes fail with EIO
+    g_rngdev.failed_sources.insert(src);
+    g_rngdev.fired_in_op[cur_task()]++;
+    MemLayer::get().stats["getentropy_over_256"]++;
+    ev(vfmt("entropy-fault src=%s outcome=over-256", src));
+    errno = EIO; return -1;
+  }
   if (o == "ok") {
     EntropyDev::get().fill(cur_task(), buf, n);
     g_rngdev.full_draws++;
     return (long)n;
   }
   g_rngdev.failed_sources.insert(src);
+  g_rngdev.fired_in_op[cur_task()]++;
   MemLayer::get().stats[std::string("inj_") + src + "_" + o.substr(0, o.find(':'))]++;
   ev(vfmt("entropy-fault src=%s outcome=%s", src, o.c_str()));
   if (o == "enosys") { errno = ENOSYS; return -1; }
@@ -95,13 +105,16 @@ int sim_open(const char *path, int flags, ...) {
   if (strcmp(path, "/dev/urandom")) { errno = ENOENT; return -1; }
   if (o != "ok") {
     g_rngdev.failed_sources.insert("urandom");
+    g_rngdev.fired_in_op[cur_task()]++;
     MemLayer::get().stats["inj_open_" + o]++;
     ev("entropy-fault src=open outcome=" + o);
     errno = o == "emfile" ? EMFILE : o == "eacces" ? EACCES : o == "eintr" ? EINTR : o == "enfile" ? ENFILE : o == "enomem" ? ENOMEM : ENOENT; return -1;
   }
-  int fd = 1000 + g_rngdev.next_fd++;
+  // lowest free descriptor from the run's base on, as a kernel would hand it out (base 0: the application closed stdin)
+  int fd = g_rngdev.fd_base; while (g_rngdev.open_fds.count(fd)) fd++;
+  g_rngdev.next_fd++;
   g_rngdev.open_fds[fd] = cur_task();
-  ev(vfmt("open /dev/urandom -> fd%d", fd - 1000));
+  ev(vfmt("open /dev/urandom -> fd%d", fd - g_rngdev.fd_base));
   return fd;
 }
 int sim_open64(const char *path, int flags, ...) { return sim_open(path, flags); }
@@ -114,8 +127,16 @@ ssize_t sim_read(int fd, void *buf, size_t n) {
 int sim_close(int fd) {
   if (!g_rngdev.open_fds.count(fd)) { errno = EBADF; return -1; }
   g_rngdev.open_fds.erase(fd);
-  ev(vfmt("close fd%d", fd - 1000));
+  ev(vfmt("close fd%d", fd - g_rngdev.fd_base));
   co_yield_point("close");
+  std::string o = next_outcome("close");
+  if (o != "ok") {   // as on Linux: the descriptor is gone whatever close() reports
+    g_rngdev.fired_in_op[cur_task()]++;
+    g_rngdev.failed_sources.insert("urandom");   // a tree may count a failed close against the source (fail-closed: fine)
+    MemLayer::get().stats["inj_close_" + o]++;
+    ev("entropy-fault src=close outcome=" + o);
+    errno = o == "eintr" ? EINTR : EIO; return -1;
+  }
   return 0;
 }
 }
